@@ -8,7 +8,7 @@ RULE = ("C13: programs under FailAfter / ContinueAfter bounds 1..30 and without 
 
 
 def run(tier):
-    res = run_prog_check("C13", PROPS, tier, ["c13", "c08"], n_quick=5000, n_thorough=80000, rule=RULE)
+    res = run_prog_check("C13", PROPS, tier, ["c13", "c08"], n_quick=5000, n_thorough=80000, rule=RULE, focus=["park", "condvar", "barrier", "mutex", "rwlock", "sem", "atomic", "chan"], focus_n=(1500, 30000))
     if isinstance(res, int):
         return res
     ctx, cases, mo, io = res
